@@ -2,7 +2,7 @@
 import json, os, queue, subprocess, threading, time
 
 VERIF = os.path.dirname(os.path.dirname(os.path.dirname(os.path.abspath(__file__))))
-RLV = os.path.join(VERIF, "target", "debug", "rlv")
+RLV = os.environ.get("RLV_BIN") or os.path.join(VERIF, "target", "debug", "rlv")      # RLV_BIN: developer override only
 SHIM = os.path.join(VERIF, "target", "getrandom_shim.so")
 NCPU = int(os.environ.get("RLV_WORKERS", os.cpu_count() or 8))
 
